@@ -19,6 +19,18 @@ import (
 
 func init() { vh.Register("C15", runC15) }
 
+// c15Family: a further case family of the same property, registered from its own file
+// (c15_<family>.go: `c15Extra = append(c15Extra, ...)` in an init).  run generates and checks the
+// family's cases within its share of the budget; replay reports whether the replayed case
+// belongs to the family (and runs it if so).
+type c15Family struct {
+	name   string
+	run    func(ctx *vh.Ctx) error
+	replay func(ctx *vh.Ctx, raw json.RawMessage) (bool, error)
+}
+
+var c15Extra []c15Family
+
 // ---------------------------------------------------------------------------------------
 // case language
 // ---------------------------------------------------------------------------------------
@@ -994,6 +1006,11 @@ func c15Fixed() []*c15Case {
 func runC15(ctx *vh.Ctx) error {
 	ctx.Res.Rule = "random mapping sets over a menu of source/target types (nested structs, pointers, map[string]T, any holes) x every declaration order for sets of at most 4 mappings (sampled above) x source values incl. nil pointers/interfaces; per case: Compile class, 10 Invoke runs, Stream chunks, predecessor outputs re-inspected; non-trivial = at least 2 mappings or a path of depth >= 2; distinct by (target type, successor kind, declaration-ordered (predecessor type, from, to) list)"
 	if ctx.Replay != nil {
+		for _, f := range c15Extra {
+			if handled, err := f.replay(ctx, ctx.Replay); handled {
+				return err
+			}
+		}
 		var c c15Case
 		if err := json.Unmarshal(ctx.Replay, &c); err != nil {
 			return err
@@ -1003,6 +1020,11 @@ func runC15(ctx *vh.Ctx) error {
 	}
 	for _, c := range c15Fixed() {
 		if _, _, err := c15One(ctx, c, true); err != nil {
+			return err
+		}
+	}
+	for _, f := range c15Extra {
+		if err := f.run(ctx); err != nil {
 			return err
 		}
 	}
